@@ -698,27 +698,18 @@ func TestVerif_C11(t *testing.T) {
 		R     int
 		shard uint64
 	}
-	pools := map[gkey]chan *c11Group{}
-	for R := 2; R <= maxR; R++ {
-		for _, sh := range shardsFor(R) {
-			ch := make(chan *c11Group, vx.Workers())
-			for i := 0; i < vx.Workers(); i++ {
-				ch <- nil // built lazily
-			}
-			pools[gkey{R, sh}] = ch
-		}
-	}
-	vx.ParallelFor(len(units), func(i int) {
+	// one replica group per (R, shard) and worker PROCESS (fragments mmap files: process-level workers scale,
+	// goroutines do not); built lazily, reused for all units of the share
+	groups := map[gkey]*c11Group{}
+	var noTrigger int64
+	c.ProcFor(c.NextRunLabel(), len(units), nil, func(_ []byte, i int, emit func([]byte)) {
 		u := units[i]
-		if c.Expired() {
-			return
-		}
-		pool := pools[gkey{u.R, u.shard}]
-		g := <-pool
+		g := groups[gkey{u.R, u.shard}]
 		if g == nil {
 			g = c11NewGroup(u.R, u.shard)
+			groups[gkey{u.R, u.shard}] = g
 		}
-		defer func() { pool <- g }()
+		before := atomic.LoadInt64(&c11NoTrigger)
 		assign := make([]int, u.R)
 		assign[0] = u.a0
 		total := 1
@@ -756,22 +747,25 @@ func TestVerif_C11(t *testing.T) {
 			if skip {
 				continue
 			}
+			if x%4096 == 0 && c.Expired() {
+				return
+			}
 			g.run(c, u.kind, u.syncer, u.missing, assign)
 			if x%997 == 0 {
 				c.Sample(c11Case{R: u.R, Shard: u.shard, View: c11ViewKind(u.kind), Syncer: u.syncer, Missing: u.missing, Assign: append([]int(nil), assign...)}.String())
 			}
 		}
+		emit([]byte(fmt.Sprint(atomic.LoadInt64(&c11NoTrigger) - before)))
+	}, func(rec []byte) {
+		var n int64
+		fmt.Sscan(string(rec), &n)
+		noTrigger += n
 	})
-	for _, pool := range pools {
-		close(pool)
-		for g := range pool {
-			if g != nil {
-				g.Close()
-			}
-		}
+	for _, g := range groups {
+		g.Close()
 	}
 	c.AddValidated(c.Evaluations)
-	c.Extra("cases_without_known_defect_trigger", atomic.LoadInt64(&c11NoTrigger))
+	c.Extra("cases_without_known_defect_trigger", noTrigger)
 	c.Assume("replica contents limited to a 5-position universe (rows 0,1,99 | 100; columns 0,1,ShardWidth-1) — the merge is position-relative")
 	c.Assume("message delivery is in-process and reliable; a pass that completes is what the statement quantifies over")
 	if c.Finish() != 0 {
